@@ -8,6 +8,69 @@ compiler may replace one by the other; the logical definition used by every theo
 import XV.Model.Utf8
 namespace XV.Model.Utf8
 
+/-- `l.length < t` without walking the whole list (the raw window is up to 48K bytes long and `decodeStep`
+asks this once per multi-byte character) -/
+def shorter : List Nat → Nat → Bool
+  | _, 0 => false
+  | [], _ + 1 => true
+  | _ :: r, t + 1 => shorter r t
+
+theorem shorter_eq : ∀ (l : List Nat) (t : Nat), shorter l t = decide (l.length < t) := by
+  intro l
+  induction l with
+  | nil => intro t; cases t <;> simp [shorter]
+  | cons a r ih => intro t; cases t with
+    | zero => simp [shorter]
+    | succ t => simp [shorter, ih]
+
+/-- `decodeStep` with the bounded length test -/
+def decodeStepFast : List Nat → Step
+  | [] => .more
+  | b0 :: rest =>
+    let t := tb b0
+    if shorter rest t then .more
+    else if (indTest t &&& b0) != ind t then .exc .formatError
+    else match t, rest with
+      | 1, b1 :: _ =>
+          if trailBad b1 then .exc .formatError
+          else .val (sub32 (b0 * 64 + b1) (off 1)) 2
+      | 2, b1 :: b2 :: _ =>
+          if b0 == 0xE0 && b1 < 0xA0 then .exc .invalid3
+          else if trailBad b1 then .exc .formatError
+          else if trailBad b2 then .exc .formatError
+          else if b0 == 0xED && b1 ≥ 0xA0 then .exc .irregular3
+          else .val (sub32 ((b0 * 64 + b1) * 64 + b2) (off 2)) 3
+      | 3, b1 :: b2 :: b3 :: _ =>
+          if (b0 == 0xF0 && b1 < 0x90) || (b0 == 0xF4 && b1 > 0x8F) then .exc .invalid4
+          else if trailBad b1 then .exc .formatError
+          else if trailBad b2 then .exc .formatError
+          else if trailBad b3 then .exc .formatError
+          else .val (sub32 (((b0 * 64 + b1) * 64 + b2) * 64 + b3) (off 3)) 4
+      | _, _ => .exc .exceedsLimit
+
+@[csimp] theorem decodeStep_eq_fast : @decodeStep = @decodeStepFast := by
+  funext bs
+  cases bs with
+  | nil => rfl
+  | cons b0 rest =>
+    unfold decodeStep decodeStepFast
+    simp only [shorter_eq, decide_eq_true_eq]
+    split
+    · rfl
+    · split
+      · rfl
+      · -- the two (identical) pattern matches are distinct auxiliary definitions: go through the cases
+        generalize tb b0 = t
+        by_cases h0 : t = 0
+        · subst h0; cases rest <;> rfl
+        by_cases h1 : t = 1
+        · subst h1; rcases rest with _ | ⟨b1, r⟩ <;> rfl
+        by_cases h2 : t = 2
+        · subst h2; rcases rest with _ | ⟨b1, _ | ⟨b2, r⟩⟩ <;> rfl
+        by_cases h3 : t = 3
+        · subst h3; rcases rest with _ | ⟨b1, _ | ⟨b2, _ | ⟨b3, r⟩⟩⟩ <;> rfl
+        split <;> first | omega | (split <;> first | omega | rfl)
+
 def fromLoopFast : Nat → List Nat → Nat → List Nat → List Nat → Nat → Res
   | 0, _, _, rc, rs, eaten => .ok rc.reverse rs.reverse eaten
   | fuel + 1, src, room, rc, rs, eaten =>
